@@ -179,7 +179,8 @@ class Judge:
                               v140=first, now=d['key'])
                 elif first != d['key']:
                     self.disc('C02', 'I-location', op['i'], f'{name}: same computation, different storage key', first=first, now=d['key'],
-                              zone='set_valued_parameter_object' if _has_pset(it) else ('path_object_default_persisted' if _has_pathobj(it) else None),
+                              zone='set_valued_parameter_object' if _has_pset(it) else ('path_object_default_persisted' if _has_pathobj(it) else
+                                    ('mapping_valued_parameter_object_argument' if _has_optdict(it) else None)),
                               render=render, hs=self.scn['procs'][self.proc['index']].get('hs'))
                 other = self.D_of_key.setdefault((it.slug, d['key']), it.D)
                 if other != it.D:
@@ -750,6 +751,32 @@ def _has_pset(it):
             continue
         seen.add(t.fullname)
         if 'PSet' in json.dumps(t.persisted, default=str):
+            return True
+        work.extend(t.inputs.values())
+    return False
+
+
+def _has_optdict(it):
+    """does this computation (or anything upstream of it) take a parameter object with a mapping-valued argument of two or more keys?"""
+    def multi(v):
+        if isinstance(v, dict) and 'class' in v:
+            kw = v.get('kwargs') or {}
+            if v['class'].endswith('.POpt') and len([k for k in kw if k != 'a']) >= 2:
+                return True
+            return any(multi(x) for x in kw.values())
+        if isinstance(v, dict):
+            return any(multi(x) for x in v.values())
+        if isinstance(v, list):
+            return any(multi(x) for x in v)
+        return False
+    seen = set()
+    work = [it]
+    while work:
+        t = work.pop()
+        if t.fullname in seen:
+            continue
+        seen.add(t.fullname)
+        if multi(t.persisted):
             return True
         work.extend(t.inputs.values())
     return False
